@@ -21,6 +21,9 @@ import r_shape
 import r_family
 import r_chain
 import r_decodelen
+import r_powers
+import r_outcover
+import r_residue
 import r_slotmod
 import r_modeflag
 import r_sendrecv
@@ -298,6 +301,7 @@ def c01(facts, tier):
         M.check_table(me[sc][0], me[sc][1], rep, sc, rows)
         nrows += len(rows)
     rep.floor("R-METAFLOW(table)", "fresh-encryption metadata rows", nrows, 200)
+    r_residue.run(facts, rep, floor=4, files={"src/util/scaling_variant.rs", "src/encryptor.rs", "src/util/rlwe.rs"})
     return rep
 
 
@@ -471,6 +475,7 @@ def c08(facts, tier):
     rep.floor("R-DEPEND(order)", "in-place loop loads", n, 8)
     n = r_contra.run_narrow_shift(facts, rep, None if tier == "thorough" else r_depend.SCOPE_MODULES)
     rep.floor("R-CONTRA(shift)", "functions with left shifts", n, 10)
+    r_residue.run(facts, rep, floor=30)
     return rep
 
 
@@ -509,6 +514,7 @@ def c12(facts, tier):
     n = r_contra.run_absmod(facts, rep, {"src/ckks_encoder.rs"})
     rep.floor("R-CONTRA(absmod)", "reduced magnitudes of signed locals", n, 1)
     r_encadmit.run(facts, rep, floor=4)
+    r_outcover.run(facts, rep, floor=2)
     return rep
 
 
@@ -625,6 +631,10 @@ def c11(facts, tier):
     n = r_contra.run_index(facts, rep, files)
     rep.floor("R-CONTRA(index)", "length-guarded index uses", n, 0)
     r_pair.run_galois_total(facts, rep)
+    # the decomposition of a rotation step into available keys must cover negative steps
+    n = r_contra.run_sign_loop(facts, rep, None if tier == "thorough" else {"src/util/number_theory.rs", "src/util/galois.rs",
+                                                                             "src/evaluator.rs"})
+    rep.floor("R-CONTRA(signloop)", "halving loops over signed values", n, 0)
     return rep
 
 
@@ -653,6 +663,9 @@ def c04(facts, tier):
     n = r_contra.run_abs_sign(facts, rep, None if tier == "thorough" else {"src/util/number_theory.rs", "src/util/galois.rs",
                                                                             "src/evaluator.rs"})
     rep.floor("R-CONTRA(sign)", "functions taking absolute values", n, 1)
+    n = r_contra.run_sign_loop(facts, rep, None if tier == "thorough" else {"src/util/number_theory.rs", "src/util/galois.rs",
+                                                                             "src/evaluator.rs"})
+    rep.floor("R-CONTRA(signloop)", "halving loops over signed values", n, 0)
     return rep
 
 
@@ -786,6 +799,7 @@ def c10(facts, tier):
                  "arithmetic for the rule to read).")
     r_resdom.run(facts, rep, {"src/util/rns.rs"}, floor=6)
     r_resdom.run_operand_index(facts, rep, {"src/util/rns.rs"}, floor=10)
+    r_shape.run_baselen(facts, rep)
     return rep
 
 
@@ -802,6 +816,7 @@ def c19(facts, tier):
                  "covers the elements used, the CKKS error bound.")
     r_lwepair.run(facts, rep)
     r_lwepair.run_levels(facts, rep)
+    r_lwepair.run_packmeta(facts, rep)
     ents = [p for p in facts.items if p.startswith("app::lwe::") and facts.items[p].get("vis") == "pub" and p in facts.hir]
     repstate(facts, rep, ents, 40)
     r_loop.run(facts, rep, {"src/app/lwe.rs"}, level_walk=False)
@@ -820,6 +835,8 @@ def c07(facts, tier):
                  "that the reported number EQUALS the exactly computed budget, the fresh-encryption bound, the growth bounds "
                  "under negation / addition, exact decryption below the threshold — all value-level.")
     r_budget.run(facts, rep)
+    r_budget.run_reach(facts, rep)
+    r_powers.run(facts, rep, floor=2)
     ents = [p for p in facts.items if p.startswith("encryptor::Decryptor::") and facts.items[p].get("vis") == "pub"
             and "noise" in facts.items[p]["name"]]
     repstate(facts, rep, ents, 2)
